@@ -170,7 +170,7 @@ def run(ctx: Ctx):
     # the search starts from a node of the graph (the caller's, or the first key) and runs while the heap has entries
     from .sat_common import _need
 
-    _need(ctx, "C13-O2", "R21 search discipline", p, "without a caller's start node the first key of the graph is taken; the tree starts as {start}", ["if start is None:\n        start = next(iter(graph.keys()))", "in_mst: set[Node] = {start}"])
+    ctx.step(_need, "C13-O2", "R21 search discipline", p, "without a caller's start node the first key of the graph is taken; the tree starts as {start}", ["if start is None:\n        start = next(iter(graph.keys()))", "in_mst: set[Node] = {start}"])
     wl = [n for n in own_nodes(p.node) if isinstance(n, ast.While)]
     ctx.require(len(wl) == 1, "prim main loop not found")
     wat = _atoms(wl[0].test, True)
